@@ -37,6 +37,9 @@ pub mod op;
 pub mod rr;
 pub mod serialize;
 
+#[cfg(feature = "verif-hooks")]
+pub mod verif_hooks;
+
 #[cfg(feature = "std")]
 pub(crate) use rand::random;
 
